@@ -19,6 +19,7 @@ import (
 	"strings"
 	"sync"
 
+	"golang.org/x/tools/go/packages"
 	"golang.org/x/tools/go/ssa"
 	"golang.org/x/tools/go/ssa/ssautil"
 )
@@ -40,6 +41,8 @@ type orgIndex struct {
 }
 
 var orgIndexCache = map[*Prog]*orgIndex{}
+var orgSubIndexCache = map[*Prog]map[string]*orgIndex{}
+var orgProgCache = map[*Prog]*ssa.Program{}
 
 func orgPkgOf(f *ssa.Function) *types.Package {
 	for g := f; g != nil; g = g.Parent() {
@@ -68,16 +71,20 @@ func orgFieldOf(t types.Type, i int) *types.Var {
 // orgBuildSSA: SSA for the module packages, built in parallel (Prog.SSA builds them one after the
 // other, which costs ~40 s for the engine's root package closure; this takes a few seconds).
 // If the framework's program was already built it is reused.
-func orgBuildSSA(p *Prog) *ssa.Program {
+func orgBuildSSA(p *Prog, mod []*packages.Package) *ssa.Program {
 	if p.ssaProg != nil {
 		return p.ssaProg
 	}
-	prog, _ := ssautil.AllPackages(p.Roots, ssa.InstantiateGenerics)
+	prog := orgProgCache[p]
+	if prog == nil {
+		prog, _ = ssautil.AllPackages(p.Roots, ssa.InstantiateGenerics)
+		orgProgCache[p] = prog
+	}
 	var wg sync.WaitGroup
-	for _, pk := range p.Module {
+	for _, pk := range mod {
 		if sp := prog.Package(pk.Types); sp != nil {
 			wg.Add(1)
-			go func() { defer wg.Done(); sp.Build() }()
+			go func() { defer wg.Done(); sp.Build() }() // Build is idempotent
 		}
 	}
 	wg.Wait()
@@ -92,14 +99,36 @@ func (ix *orgIndex) FuncValue(fn *types.Func) *ssa.Function {
 	return ix.prog.FuncValue(fn)
 }
 
-func orgIndexOf(p *Prog) *orgIndex {
-	if ix, ok := orgIndexCache[p]; ok {
-		return ix
+func orgIndexOf(p *Prog) *orgIndex { return orgIndexOfPkgs(p, nil) }
+
+// orgIndexOfPkgs: the index restricted to some module packages (nil = all): only their function
+// bodies are built and indexed. Enough when the analysed state is package-private (unexported
+// fields can only be written inside their package) and much cheaper than the whole module.
+func orgIndexOfPkgs(p *Prog, only []*packages.Package) *orgIndex {
+	if only == nil {
+		if ix, ok := orgIndexCache[p]; ok {
+			return ix
+		}
+	} else if ix, ok := orgIndexCache[p]; ok {
+		return ix // the full index serves every subset
 	}
-	prog := orgBuildSSA(p)
+	ckey := ""
+	for _, pk := range only {
+		ckey += pk.PkgPath + ";"
+	}
+	if only != nil {
+		if m := orgSubIndexCache[p]; m != nil && m[ckey] != nil {
+			return m[ckey]
+		}
+	}
+	mod := p.Module
+	if only != nil {
+		mod = only
+	}
+	prog := orgBuildSSA(p, mod)
 	ix := &orgIndex{p: p, prog: prog, inMod: map[*types.Package]bool{}, stores: map[*types.Var][]orgStore{},
 		callers: map[*ssa.Function][]ssa.CallInstruction{}, closures: map[*ssa.Function][]*ssa.MakeClosure{}}
-	for _, pk := range p.Module {
+	for _, pk := range mod {
 		ix.inMod[pk.Types] = true
 	}
 	seen := map[*ssa.Function]bool{}
@@ -121,7 +150,7 @@ func orgIndexOf(p *Prog) *orgIndex {
 			}
 		}
 	}
-	for _, pk := range p.Module {
+	for _, pk := range mod {
 		sp := prog.Package(pk.Types)
 		if sp == nil {
 			continue
@@ -179,7 +208,14 @@ func orgIndexOf(p *Prog) *orgIndex {
 			}
 		}
 	}
-	orgIndexCache[p] = ix
+	if only == nil {
+		orgIndexCache[p] = ix
+	} else {
+		if orgSubIndexCache[p] == nil {
+			orgSubIndexCache[p] = map[string]*orgIndex{}
+		}
+		orgSubIndexCache[p][ckey] = ix
+	}
 	return ix
 }
 
